@@ -693,8 +693,46 @@ def install() -> None:
     _t.ThreadingActor = SimActor  # type: ignore
 
 
+class _VThreading:
+    """`threading` as seen by a controller module: Timer is the simulated one, everything else is the real module"""
+
+    Timer = SimTimer
+
+    def __getattr__(self, name):
+        import threading as _th
+
+        return getattr(_th, name)
+
+
+class _VTimeModule:
+    """`time` as seen by a controller module: time/sleep/monotonic are virtual, everything else is the real module"""
+
+    time = staticmethod(VTime.time)
+    sleep = staticmethod(VTime.sleep)
+    monotonic = staticmethod(VTime.monotonic)
+
+    def __getattr__(self, name):
+        import time as _tm
+
+        return getattr(_tm, name)
+
+
+class _VDtModule:
+    """the `datetime` MODULE as seen by a controller module (`import datetime`): datetime.datetime is the virtual class"""
+
+    datetime = VDatetime
+
+    def __getattr__(self, name):
+        return getattr(_dt, name)
+
+
 def patch_modules() -> None:
-    """Replace time sources of the controller modules (after import)."""
+    """Replace the time sources and timers of EVERY loaded controller module (after import): a module that starts its own
+    `threading.Timer`, sleeps or reads the clock is simulated like controller.actor (a change that moves such a call into
+    another module must not escape virtual time)."""
+    import threading as _th
+    import time as _tm
+
     import controller.actor
     import controller.device
     import controller.disinfection
@@ -704,16 +742,18 @@ def patch_modules() -> None:
     import controller.util
 
     controller.actor.Timer = SimTimer
-    for mod in (
-        controller.actor,
-        controller.filtration,
-        controller.heating,
-        controller.disinfection,
-        controller.swim,
-        controller.util,
-    ):
-        if hasattr(mod, "datetime"):
+    for name, mod in list(sys.modules.items()):
+        if mod is None or not (name == "controller" or name.startswith("controller.")):
+            continue
+        if getattr(mod, "datetime", None) is _dt.datetime:
             mod.datetime = VDatetime
-    controller.disinfection.time = VTime
-    controller.filtration.time = VTime
-    controller.device.time = VTime
+        if getattr(mod, "Timer", None) is _th.Timer:
+            mod.Timer = SimTimer
+        if getattr(mod, "threading", None) is _th:
+            mod.threading = _VThreading()
+        if getattr(mod, "datetime", None) is _dt:
+            mod.datetime = _VDtModule()
+        if getattr(mod, "time", None) is _tm:
+            mod.time = _VTimeModule()
+        if getattr(mod, "sleep", None) is _tm.sleep:
+            mod.sleep = VTime.sleep
